@@ -128,6 +128,15 @@ def run(ctx):
             mode = "strict" if r < 0.35 else (("boom", rng.randint(0, 6)) if r < 0.7 else "ok")
             h.append((mode, c))
         run_history(ctx, tb, h, rng.choice(calls) if rng.random() < 0.7 else ("parse", gen.soup(rng, maxparts=8), {}), "random-history")
+    # entity-reference heavy histories (the named-reference trie is a process-wide object)
+    letters = "lgnaco"
+    def entdoc():
+        out = []
+        for _ in range(rng.randint(1, 5)):
+            out.append("&" + "".join(rng.choice(letters + "tzrq;=1") for _ in range(rng.randint(1, 4))) + rng.choice(["", ";", " ", "=3", "<b>"]))
+        return "<p title='" + "".join(out[:2]) + "'>" + "x".join(out)
+    for i in range(ctx.scale(1500, 30000)):
+        run_history(ctx, "etree", [("ok", ("parse", entdoc(), {})) for _ in range(rng.randint(1, 2))], ("parse", entdoc(), {}), "entity-history")
     # serializer / walker reuse
     from html5lib.serializer import HTMLSerializer
     s = HTMLSerializer(omit_optional_tags=False)
